@@ -1338,6 +1338,10 @@ def unroll_boundary_pairs(fn):
                     all(isinstance(x, ast.Name) for x in st.target.elts[1].elts)):
                 continue
             z = st.iter.args[0]
+            if isinstance(z, ast.Call) and isinstance(z.func, ast.Name) and z.func.id == "zip" and len(z.args) == 2 and \
+                    isinstance(z.args[0], ast.Subscript) and isinstance(z.args[0].value, ast.Name) and ast.unparse(z.args[0].slice) == ":-1":
+                z = copy.copy(z)
+                z.args = [z.args[0].value, z.args[1]]       # zip(L[:-1], L[1:]) is zip(L, L[1:])
             if not (isinstance(z, ast.Call) and isinstance(z.func, ast.Name) and z.func.id == "zip" and len(z.args) == 2 and
                     isinstance(z.args[0], ast.Name) and isinstance(z.args[1], ast.Subscript) and ast.unparse(z.args[1]) == f"{z.args[0].id}[1:]"):
                 continue
